@@ -238,6 +238,14 @@ func NewRun(prop, tier string) *Run {
 
 func (r *Run) Quick() bool { return r.Tier != "thorough" }
 
+// HasViolation reports whether an earlier scenario of this run already found a violation (the verdict is decided;
+// expensive explorations may then run on a small budget).
+func (r *Run) HasViolation() bool {
+	r.mu.Lock()
+	defer r.mu.Unlock()
+	return len(r.viol) > 0
+}
+
 // Pick returns q for quick, t for thorough.
 func (r *Run) Pick(q, t int) int {
 	if r.Quick() {
